@@ -24,6 +24,7 @@ type Frame struct {
 	NatAcc    Value
 	NatRet    Value
 	NatHasRet bool
+	Defers    []Ptr // mutexes whose Unlock was deferred in this frame (LIFO; the slice is never mutated in place)
 }
 
 type State struct {
@@ -36,7 +37,20 @@ type State struct {
 	Model  []uint64 // an assignment satisfying PC, nil if not known
 	Steps  int
 	UnknownSince int
+	StubN        int // calls of environment stubs on this path (names their fresh inputs)
 	Depth  int // nesting depth of fork regions (statistics)
+}
+
+func sameDefers(a, b []Ptr) bool {
+	if len(a) != len(b) {
+		return false
+	}
+	for i := range a {
+		if a[i].Obj != b[i].Obj || !pathEq(a[i].Path, b[i].Path) {
+			return false
+		}
+	}
+	return true
 }
 
 func (f *Frame) clone() *Frame {
@@ -53,7 +67,7 @@ func (f *Frame) clone() *Frame {
 }
 
 func (s *State) clone() *State {
-	n := &State{W: s.W, Steps: s.Steps, Depth: s.Depth, UnknownSince: s.UnknownSince}
+	n := &State{W: s.W, Steps: s.Steps, Depth: s.Depth, UnknownSince: s.UnknownSince, StubN: s.StubN}
 	n.Frames = make([]*Frame, len(s.Frames))
 	for i, f := range s.Frames {
 		n.Frames[i] = f.clone()
@@ -595,7 +609,7 @@ func tryMerge(ctx *smt.Ctx, a, b *State) *State {
 	}
 	for i := range a.Frames {
 		fa, fb := a.Frames[i], b.Frames[i]
-		if fa.Fn != fb.Fn || fa.Block != fb.Block || fa.IP != fb.IP || fa.Catch != fb.Catch || fa.Call != fb.Call || fa.Nat != fb.Nat || fa.NatStep != fb.NatStep || fa.NatHasRet != fb.NatHasRet {
+		if fa.Fn != fb.Fn || fa.Block != fb.Block || fa.IP != fb.IP || fa.Catch != fb.Catch || fa.Call != fb.Call || fa.Nat != fb.Nat || fa.NatStep != fb.NatStep || fa.NatHasRet != fb.NatHasRet || !sameDefers(fa.Defers, fb.Defers) {
 			return nil
 		}
 	}
@@ -607,7 +621,10 @@ func tryMerge(ctx *smt.Ctx, a, b *State) *State {
 	ga := ctx.AndN(a.PC[k:]...)
 	gb := ctx.AndN(b.PC[k:]...)
 	m := &merger{ctx: ctx, g: ga}
-	n := &State{W: a.W, Steps: a.Steps, Depth: a.Depth}
+	n := &State{W: a.W, Steps: a.Steps, Depth: a.Depth, StubN: a.StubN}
+	if b.StubN > n.StubN {
+		n.StubN = b.StubN
+	}
 	if b.Steps > n.Steps {
 		n.Steps = b.Steps
 	}
